@@ -8,6 +8,7 @@ import itertools
 from fractions import Fraction as F
 
 from .. import pool, rb
+from ..common import nanmax
 
 LEVEL = "exploration"
 
@@ -131,10 +132,10 @@ class Case:
         if system == "jacobi":
             pass
         # slot 0 carries total mass and centre of mass of the active set
-        if abs(tm[0] - float(M)) > 4 * U * float(M):
+        if not (abs(tm[0] - float(M)) <= 4 * U * float(M)):
             V.append(("slot0-mass:%s" % system, "slot 0 mass %r, total active mass %r [%s]" % (tm[0], float(M), tag)))
         for k in range(ncomp):
-            if abs(tS[0][k] - float(com[k])) > K * U * scales[k] * cond:
+            if not (abs(tS[0][k] - float(com[k])) <= K * U * scales[k] * cond):
                 V.append(("slot0-com:%s" % system, "slot 0 component %d is %r, centre of mass of the active particles is %r [%s]" % (k, tS[0][k], float(com[k]), tag)))
                 break
         for i in range(1, N):
@@ -144,7 +145,7 @@ class Case:
                     continue
                 w = float(want[i][k])
                 fac = float((Fm[0] + Fm[i]) / Fm[0]) if system == "whds" and i < N_active else 1.0
-                if abs(tS[i][k] - w) > K * U * (scales[k] * max(1.0, fac) + abs(w)):
+                if not (abs(tS[i][k] - w) <= K * U * (scales[k] * max(1.0, fac) + abs(w))):
                     V.append(("forward:%s:%s" % (system, "test" if i >= N_active else "active"), "transformed particle %d component %d is %r, the definition gives %r [%s]" % (i, k, tS[i][k], w, tag)))
                     bad = True
                     break
@@ -161,7 +162,7 @@ class Case:
             for i in range(1, N):
                 for k in range(6):
                     w = float(want[i][k])
-                    if abs(s2[i][k] - w) > K * U * (scales[k] + abs(w)):
+                    if not (abs(s2[i][k] - w) <= K * U * (scales[k] + abs(w))):
                         V.append(("forward:jacobi-posvel:%s" % ("test" if i >= N_active else "active"), "jacobi_posvel: particle %d component %d is %r, the definition gives %r [%s]" % (i, k, s2[i][k], w, tag)))
                         break
             for i in range(N):
@@ -170,6 +171,38 @@ class Case:
                     break
                 if s3[i][6:9] != tS[i][6:9]:
                     V.append(("variants-disagree:jacobi:acc", "acc and posvelacc forward maps differ for particle %d: %s vs %s [%s]" % (i, s3[i][6:9], tS[i][6:9], tag)))
+                    break
+        # the Jacobi maps take the masses from a separate array (WHFast transforms variational particles with the masses of the
+        # real ones): a set whose own .m fields are unrelated numbers must transform exactly like the consistent set
+        if system == "jacobi":
+            Pg = self.arr(N, None, S)
+            for i in range(N):
+                Pg[i].m = 0.37 * (i + 1) - 0.5
+            for fn, lo, hi in (("posvelacc", 0, 9), ("posvel", 0, 6), ("acc", 6, 9)):
+                Tg = self.arr(N, fill=7.25)
+                getattr(cl, "reb_particles_transform_inertial_to_jacobi_%s" % fn)(Pg, Tg, P, c_N, c_Na)
+                sg, mg = self.get(Tg, N)
+                bad = [i for i in range(N) if sg[i][lo:hi] != tS[i][lo:hi]]
+                if bad or (fn != "acc" and mg[0] != tm[0]):
+                    i = bad[0] if bad else 0
+                    V.append(("separate-mass-array:jacobi:%s" % fn, "inertial_to_jacobi_%s with the masses in a separate array: particle %d is %s (slot 0 mass %r), with the masses in the set itself %s (%r) [%s]" % (
+                        fn, i, sg[i][lo:hi], mg[0], tS[i][lo:hi], tm[0], tag)))
+                    break
+            # and back: transformed set with unrelated .m in slots 1.., masses from the separate array
+            Tg = self.arr(N, None, tS)
+            for i in range(N):
+                Tg[i].m = tm[0] if i == 0 else -1.25 * i
+            Qc = self.arr(N, m, None)
+            cl.reb_particles_transform_jacobi_to_inertial_posvel(Qc, T, P, c_N, c_Na)
+            cl.reb_particles_transform_jacobi_to_inertial_acc(Qc, T, P, c_N, c_Na)
+            Qg = self.arr(N, None, None, fill=7.25)
+            cl.reb_particles_transform_jacobi_to_inertial_posvel(Qg, Tg, P, c_N, c_Na)
+            cl.reb_particles_transform_jacobi_to_inertial_acc(Qg, Tg, P, c_N, c_Na)
+            qc, _ = self.get(Qc, N)
+            qg, _ = self.get(Qg, N)
+            for i in range(N):
+                if qc[i] != qg[i]:
+                    V.append(("separate-mass-array:jacobi:inverse", "jacobi_to_inertial with the masses in a separate array gives %s for particle %d, with consistent masses %s [%s]" % (qg[i], i, qc[i], tag)))
                     break
         # ---- inverse, as the integrators call it (destination pre-loaded with the masses) and into a stale buffer
         for dest in ("masses", "stale"):
@@ -200,7 +233,7 @@ class Case:
                 for i in range(N):
                     got = (Qa[i].ax, Qa[i].ay, Qa[i].az)
                     amp = cond * (float(M) / mmin if i == 0 else 1.0)
-                    if max(abs(a - b) for a, b in zip(got, S[i][6:9])) > K * U * scale_a * max(1.0, amp):
+                    if not (nanmax(abs(a - b) for a, b in zip(got, S[i][6:9])) <= K * U * scale_a * max(1.0, amp)):
                         V.append(("roundtrip:barycentric:acc", "barycentric_to_inertial_acc of the exact barycentric accelerations gives %s for particle %d, expected %s [%s]" % (got, i, S[i][6:9], tag)))
                         break
             else:
@@ -210,7 +243,7 @@ class Case:
                 bad = False
                 for k in range(ncomp):
                     amp = cond * (float(M) / mmin if (i == 0 and system != "jacobi") else 1.0) if i == 0 else cond
-                    if abs(qS[i][k] - S[i][k]) > K * U * scales[k] * max(1.0, amp):
+                    if not (abs(qS[i][k] - S[i][k]) <= K * U * scales[k] * max(1.0, amp)):
                         V.append(("roundtrip:%s:%s:%s" % (system, dest, "test" if i >= N_active else ("body0" if i == 0 else "active")),
                                   "inverse(forward(x)) differs from x for particle %d component %d: %r vs %r (destination %s) [%s]" % (i, k, qS[i][k], S[i][k], dest, tag)))
                         bad = True
@@ -229,7 +262,7 @@ class Case:
                 getattr(cl, "reb_particles_transform_%s_to_inertial_pos" % name)(Q2, T, c_N, c_Na)
             q2, q2m = self.get(Q2, N)
             for i in range(N):
-                if max(abs(a - b) for a, b in zip(q2[i][:3], qS[i][:3])) > 4 * U * scale_p * cond:
+                if not (nanmax(abs(a - b) for a, b in zip(q2[i][:3], qS[i][:3])) <= 4 * U * scale_p * cond):
                     V.append(("variants-disagree:%s:pos" % system, "position-only inverse gives %s, posvel inverse %s for particle %d (destination %s) [%s]" % (q2[i][:3], qS[i][:3], i, dest, tag)))
                     break
             # masses of the destination must be the system's masses afterwards
